@@ -13,6 +13,12 @@ pub const GARBAGE: &[&[u8]] = &[
     b"#B2", b"1e", b"1e+", b"-", b".", b"#90000000001", b"#10", b"#0", b"\x00", b"\r", b"A 1,2,3,4,5,6,7,8,9,10,11",
     b"A:H 1,2,3,4,5,6,7,8,9,0,1,2", b"SYST:ERR?", b"SYST:ERR:COUN?", b"SYST:VERS?", b"*E?", b"AE?", b"H:A?",
     b"E:E? 64", b"E:E? 9", b"A:A? 'x'",
+    // numeric extremes and odd spellings for every numeric parameter type of the fixture
+    b"HE:E -9223372036854775808,'a'", b"HE:E -32768,'a'", b"HE:E -32769,'a'", b"HE:E -0,'a'", b"A 18446744073709551616",
+    b"A 255", b"A 256", b"A -1", b"A 1.", b"A .5", b"A 7.", b"A 1e1", b"A #HFFFFFFFFFFFFFFFFFF", b"A #B11111111", b"A #Q377",
+    b"A +0000000000000000000001", b"H:A 1e400", b"H:A -1e-400", b"H:A 4.9e-324", b"H:A 1.7976931348623159e308", b"H:A -.0e-0",
+    b"H:A 1.", b"H:A 00000000000000000000000000000000000000001e-9999999999", b"H:A 9e999999999999999999999",
+    b"E:E? 255", b"E:E? 00", b"E 2", b"E ONN", b"H:H #10", b"H:H #9000000000", b"H:H #200", b"H:E ''", b"H:E \"\"",
 ];
 
 pub struct StreamCase {
